@@ -384,7 +384,12 @@ DJV_CMD(plant, "plant")
         if (sqlite3_exec(h, sql.c_str(), nullptr, nullptr, &err) != SQLITE_OK) throw bad_command{"exec"};
         sqlite3_close(h);
     };
-    if (pres.find('L') != std::string::npos) mk(dir + "/m.db");
+    if (pres.find('L') != std::string::npos)
+    {
+        mk(dir + "/m.db");
+        // a legacy library is the pair m.db + p.db (the loader refuses an m.db without its p.db)
+        std::ofstream(dir + "/p.db", std::ios::binary).flush();
+    }
     if (pres.find('D') != std::string::npos)
     {
         fs::create_directories(dir + "/Database2");
